@@ -1417,6 +1417,10 @@ impl Interpreter {
             self.active_saved_env = None;
             self.active_module_env = None;
             self.active_module_path = None;
+            // Continuations of the dead run must not be resumed by, or block, a later one
+            self.suspended_for_order = None;
+            self.wait_graph = WaitGraph::new();
+            self.pending_orders.clear();
         }
     }
 
